@@ -1,7 +1,7 @@
 (* C14 - datagram messages are reassembled exactly or not at all.
    Property theorems only; each is closed by [exact] of a lemma of Proofs/SegmentProofs.v. *)
 From Coq Require Import List NArith Bool Arith.
-From Iscp Require Import Lib.ListMap Lib.Bytes Model.Segment Proofs.SegmentProofs.
+From Iscp Require Import Lib.ListMap Lib.Bytes Model.Segment Proofs.SegmentProofs Model.Framing Proofs.FramingProofs.
 Import ListNotations.
 Open Scope N_scope.
 
@@ -90,3 +90,18 @@ Example c14_example :
   | None => False
   end.
 Proof. vm_compute. split; reflexivity. Qed.
+
+(* Histories that also contain the receiver's cleaner ticks (expiry [ex], any arrival times):
+   as long as every tick comes no later than [ex] after the latest datagram of sequence number
+   [s] ([timely]), what is handed up for [s] is what the tick-free history hands up - the whole
+   message exactly once when all its segments are in, nothing otherwise.  Other traffic and
+   malformed datagrams are arbitrary.  (The default expiry of transport/quic is tied to the
+   documented 10 s by the timed cases of h-quicfake.) *)
+Theorem c14_reassembly_timely_ticks : forall P ex s m ds,
+  0 < P -> s < 4294967296 -> split P s m = Some ds ->
+  forall evs : list sev, timely s ex None evs ->
+    NoDup (mine_raws s (strip evs)) -> incl (mine_raws s (strip evs)) (map encode_dgram ds) ->
+    outs_for s (snd (srun ex [] evs)) =
+      if (length (mine_raws s (strip evs)) =? length ds)%nat then [m] else [].
+Proof. exact reassembly_with_timely_ticks. Qed.
+Print Assumptions c14_reassembly_timely_ticks.
